@@ -14,7 +14,13 @@ import (
 // with a successful post?
 func segSucceeded(seg []Ev) bool {
 	last := seg[len(seg)-1]
-	return last.Phase == "post" && last.RetErr == nil
+	if last.Phase != "post" || last.RetErr != nil || len(seg) < 3 {
+		return false
+	}
+	// ... and the exec phase itself must have succeeded (after retries and fallback): the
+	// callback right before post is an exec attempt or the fallback, and it returned no error
+	prev := seg[len(seg)-2]
+	return (prev.Phase == "exec" || prev.Phase == "fb") && prev.RetErr == nil
 }
 
 // c04Judge applies the C04 predicate to one run's trace and result.
@@ -144,12 +150,12 @@ func c04Positions(base *WF) []Injection {
 	mr := newWfModel(base).run()
 	var out []Injection
 	for _, e := range mr.Trace {
-		for flavor := 1; flavor <= 4; flavor++ {
+		for _, flavor := range errFlavors {
 			out = append(out, Injection{Leaf: e.Leaf, Visit: e.Visit, Phase: e.Phase, Attempt: e.Attempt, Err: flavor})
 		}
 		if e.Phase == "exec" {
 			// also: every attempt of this visit fails (reaches the fallback / exhausts the budget)
-			out = append(out, Injection{Leaf: e.Leaf, Visit: e.Visit, Phase: "exec*", Attempt: -1, Err: 1 + (e.Leaf+e.Visit)%4})
+			out = append(out, Injection{Leaf: e.Leaf, Visit: e.Visit, Phase: "exec*", Attempt: -1, Err: errFlavors[(e.Leaf+e.Visit)%len(errFlavors)]})
 		}
 	}
 	return out
